@@ -123,7 +123,12 @@ def describe(T: str, root_resolved: str, jail_abs: str, exts) -> dict:
                 mentioned.add(r)
                 kind = "file" if os.path.exists(full) else "dangling"
                 st = os.lstat(full)
-                entries.append({"n": e.name, "k": kind, "c": canon_id(T, r), "w": w, "reg": stat.S_ISREG(st.st_mode)})
+                ent = {"n": e.name, "k": kind, "c": canon_id(T, r), "w": w, "reg": stat.S_ISREG(st.st_mode)}
+                if stat.S_ISLNK(st.st_mode):
+                    lex = os.path.normpath(os.path.join(c, os.readlink(full)))
+                    ent["lex"] = canon_id(T, lex)
+                    ent["lexin"] = _inside(lex, jail_abs)
+                entries.append(ent)
         dirs.append({"c": canon_id(T, c), "entries": entries})
     for m in mentioned:
         if _inside(m, jail_abs):
@@ -243,6 +248,8 @@ def gen_case(rng, loops: bool):
             else:
                 ops.append(["f", d + "/snooty.toml"])
     links = []
+    dlinks = {}   # directory link -> the directory it (logically) leads to
+    flinks = []   # file links (whatever they lead to)
     nlinks = rng.choice([0, 1, 1, 2, 2, 3, 3, 4, 5, 6])
     for i in range(nlinks):
         r = rng.random()
@@ -302,6 +309,74 @@ def gen_case(rng, loops: bool):
         ops.append(["l", p, t])
         if not isfile:
             links.append(p)
+            dlinks[p] = tgt
+        elif tgt is not None:
+            flinks.append(p)
+    # second-order links: the link text does not name the final location directly, so that following ONE
+    # hop, or normalising the text lexically, gives a different answer than the real resolution:
+    #   file link -> file link (-> ... -> file anywhere); link whose text runs THROUGH a directory link;
+    #   text with ".." after a directory link (physical parent of the link's target != lexical parent)
+    all_files = files + [o[1] for o in ops if o[0] == "f" and not o[1].endswith("snooty.toml") and o[1] not in files]
+    all_dirs = [o[1] for o in ops if o[0] == "d"]
+    for j in range(rng.choice([0, 0, 1, 1, 2, 3, 4])):
+        loc = rng.choice(real)
+        kind = rng.choice(["file-chain", "file-chain", "file-through-dirlink", "file-through-dirlink", "dir-through-dirlink", "dotdot-after-dirlink"])
+        ext = rng.choice([".txt", ".rst", ".yaml", ""])
+        if kind == "file-chain":
+            if not flinks or rng.random() < 0.4:
+                # make a hop first: a file link to any file (inside, in proj/other, outside), anywhere in the tree
+                hop = rng.choice(real) + "/h%d%s" % (j, rng.choice([".txt", ".rst", ""]))
+                if hop in taken:
+                    continue
+                taken.add(hop)
+                htgt = rng.choice(all_files)
+                ops.append(["l", hop, posixpath.relpath(htgt, posixpath.dirname(hop)) if rng.random() < 0.5 else "$T/" + htgt])
+                flinks.append(hop)
+            tgt, isfile = rng.choice(flinks), True
+        else:
+            if not dlinks:
+                # make a directory link first
+                dl = rng.choice(real) + "/g%d" % j
+                if dl in taken:
+                    continue
+                taken.add(dl)
+                dt = rng.choice(["outside", "outside/sub", "proj-archive", "proj/other", rng.choice(real)])
+                ops.append(["l", dl, posixpath.relpath(dt, posixpath.dirname(dl)) if rng.random() < 0.5 else "$T/" + dt])
+                dlinks[dl] = dt
+                links.append(dl)
+            L = rng.choice(sorted(dlinks))
+            D = dlinks[L]
+            if kind == "file-through-dirlink":
+                under = [f for f in all_files if D == "." or f.startswith(D + "/")]
+                rel = posixpath.relpath(rng.choice(under), D) if under and rng.random() < 0.85 else "nonexistent.txt"
+                tgt, isfile = L + "/" + rel, True
+            elif kind == "dir-through-dirlink":
+                under = [d for d in all_dirs if d != D and (D == "." or d.startswith(D + "/"))]
+                if not under:
+                    continue
+                tgt, isfile = L + "/" + posixpath.relpath(rng.choice(under), D), False
+            else:  # text "<L>/../<name>": physically dirname(D)/<name>, lexically dirname(L)/<name>
+                par = posixpath.dirname(D) if D not in (".", "") else "."
+                sib = [f for f in all_files if posixpath.dirname(f) == par] + [d for d in all_dirs if posixpath.dirname(d) == par and d != D]
+                nm = posixpath.basename(rng.choice(sib)) if sib and rng.random() < 0.8 else posixpath.basename(rng.choice(all_files))
+                tgt, isfile = None, (par + "/" + nm) not in all_dirs
+                raw = (posixpath.relpath(L, loc) if rng.random() < 0.6 else "$T/" + L) + "/../" + nm
+        name = ("c%d%s" % (j, ext)) if isfile else rng.choice(["m%d", "B%d"]) % j
+        p = loc + "/" + name
+        if p in taken:
+            continue
+        taken.add(p)
+        if tgt is None:
+            t = raw
+        else:
+            t = posixpath.relpath(tgt, loc) if rng.random() < 0.6 else "$T/" + tgt
+        ops.append(["l", p, t])
+        if isfile:
+            flinks.append(p)
+        elif tgt is not None:
+            # logical destination of the new directory link (for further chaining)
+            dlinks[p] = posixpath.normpath(posixpath.join(dlinks[L], posixpath.relpath(tgt, L)))
+            links.append(p)
     case = {"ops": ops, "scan": scan, "jail": jail, "exts": rng.choice(EXT_SETS)}
     if rng.random() < 0.15:
         case["via"] = True
@@ -335,6 +410,7 @@ class C17(core.PropertyCheck):
             "jail (sibling tree, temp root), to proj/other (in jail, outside the scan root), chains of links, dangling (inside/outside), to files "
             "inside/outside, into a nested project; relative or absolute link text; nested snooty.toml (regular or link) at any level; scan root = project "
             "root or its source dir, jail = project root or default; root handed over absolute, relative to cwd, or through a symlinked spelling; "
+            "second-order links (0-4 per tree): file link -> file link chains, link text running through a directory link (to files, sub-directories, nonexistent names), and text with '..' after a directory link (physical != lexical parent), so that one readlink hop or lexical normalisation differs from the real resolution; "
             "3% of the trees also carry self-referential links (outside the quantifier; correspondence only). "
             "non-trivial = tree with at least one symlink or nested project; distinct by tree")
     assumptions = [
@@ -347,6 +423,7 @@ class C17(core.PropertyCheck):
 
     def __init__(self):
         self._sent = {}
+        self._pre = {}
         _drop_hang_flag()
         atexit.register(_drop_hang_flag)  # pool workers leave through os._exit: only the main process removes it
 
@@ -384,8 +461,16 @@ class C17(core.PropertyCheck):
 
     # ---- cases --------------------------------------------------------------------------
     def generate(self, rng, budget, tier):
-        for _ in range(budget):
-            yield gen_case(rng, loops=(tier != "search" and rng.random() < 0.03))
+        cases = [gen_case(rng, loops=(tier != "search" and rng.random() < 0.03)) for _ in range(budget)]
+        if tier != "search" and len(cases) >= 64 and core.NPROC > 1:
+            # the tree descriptions for the model (materialise + scandir/resolve + remove) are independent:
+            # compute them in a fork pool instead of one by one in model_request
+            import multiprocessing
+            with multiprocessing.get_context("fork").Pool(core.NPROC) as pool:
+                descs = pool.map(_describe_fresh, cases, chunksize=max(1, len(cases) // (core.NPROC * 8)))
+            for c, fs in zip(cases, descs):
+                self._pre[json.dumps(c, sort_keys=True)] = fs
+        yield from cases
 
     def shrink_candidates(self, case):
         ops = case["ops"]
@@ -414,11 +499,9 @@ class C17(core.PropertyCheck):
         return describe(T, root_resolved, jail_abs, case["exts"])
 
     def model_request(self, case):
-        T = materialise(case)
-        try:
-            fs = self._describe_case(case, T)
-        finally:
-            cleanup(T)
+        fs = self._pre.pop(json.dumps(case, sort_keys=True), None)
+        if fs is None:
+            fs = _describe_fresh(case)
         self._sent[json.dumps(case, sort_keys=True)] = json.dumps(fs, sort_keys=True)
         return dict(fs, op="c17.walk")
 
@@ -579,9 +662,13 @@ class C17(core.PropertyCheck):
                     elif e["k"] in ("file", "dangling") and e["w"]:
                         if e["c"] not in jail:
                             tags.append("file-link-out-of-jail-skipped")
+                            if e.get("lexin"):
+                                tags.append("indirect-file-link-out-of-jail-skipped(one-hop-lexical-target-is-inside)")
                         elif e["k"] == "dangling":
                             tags.append("dangling-link-yielded")
                         elif not e.get("reg"):
+                            if e.get("lex") is not None and e["lex"] != e["c"]:
+                                tags.append("file-link-indirect(one-hop-lexical!=resolved)-yielded")
                             tags.append("file-link-yielded")
                     elif e["k"] == "loop":
                         tags.append("self-loop-link")
@@ -594,6 +681,14 @@ class C17(core.PropertyCheck):
 
     def sample(self, case, impl):
         return {"case": case, "paths": impl.get("paths"), "diags": impl.get("diags"), "exc": impl.get("exc")}
+
+
+def _describe_fresh(case):
+    T = materialise(case)
+    try:
+        return PROP._describe_case(case, T)
+    finally:
+        cleanup(T)
 
 
 PROP = C17()
